@@ -200,6 +200,16 @@ def binop (st : St) (op : String) (r1 r2 : Nat) (args : List String) : St × Res
         -- what `b` holds is its content (its own `num` bound may have cut its insertions)
         let sa' := SReg.mark st.kind { sa with src := sa.src ++ sb.content, track := sa.track && sb.track, out := sa.out || sb.out }
         ({ st' with sregs := setR st'.sregs r1 sa' }, resp st m sa'.obs)
+    else if op == "addfrom" || op == "caddfrom" then
+      -- no compatibility check: the hashes `b` holds are added one by one with abundance 1
+      let a' := a.addFrom st.kind b
+      let sa' := SReg.mark st.kind { sa with src := sa.src ++ sb.keys.map (fun h => (h, 1)), out := sa.out || sb.out }
+      ({ st with regs := setR st.regs r1 a', sregs := setR st.sregs r1 sa' }, resp st a'.obs sa'.obs)
+    else if op == "rmfrom" then
+      let a' := a.removeFrom b
+      let ks := sb.keys
+      let sa' := { sa with src := sa.content.filter (fun p => !ks.contains p.1), out := sa.out || sb.out }
+      ({ st with regs := setR st.regs r1 a', sregs := setR st.sregs r1 sa' }, resp st a'.obs sa'.obs)
     else if op == "isect" then
       let m := match intersection st.kind a b with
         | .ok (c, u) => "common=" ++ showNats c ++ " union=" ++ toString u
@@ -285,6 +295,52 @@ def stepC04 (st : St) (ws : List String) : St × Resp :=
     let sr : SReg := { num := num.toNat!, maxHash := Scaled.maxHashForScaled scaled.toNat!, ksize := ksize.toNat!,
                        seed := seed.toNat!, mol := mol, track := tr, src := [] }
     ({ st with regs := setR st.regs r sk, sregs := setR st.sregs r sr }, { model := "ok" })
+  | ["build", r, ctor, maxHash, num, ksize, mol, seed, track, items] =>
+    -- a sketch handed over ready-made (builder / JSON document): the state is what was given; a JSON
+    -- document is sorted by (hash, abundance) on the way in and loses `num` next to a ceiling
+    let r := r.toNat!
+    let tr := track == "1"
+    let ps := if ctor == "js" then sortPairs (parsePairs items) else parsePairs items
+    let nm := if ctor == "js" && maxHash.toNat! != 0 then 0 else num.toNat!
+    let sk : Sk := { num := nm, maxHash := maxHash.toNat!, ksize := ksize.toNat!, seed := seed.toNat!,
+                     mol := parseMol mol, mins := ps.map Prod.fst, abunds := if tr then some (ps.map Prod.snd) else none }
+    let sr : SReg := { num := num.toNat!, maxHash := maxHash.toNat!, ksize := ksize.toNat!,
+                       seed := seed.toNat!, mol := mol, track := tr, src := parsePairs items }
+    ({ st with regs := setR st.regs r sk, sregs := setR st.sregs r sr }, resp st sk.obs sr.obs)
+  | ["newdef", r] =>
+    let sr : SReg := { num := 1000, maxHash := 0, ksize := 21, seed := 42, mol := "dna", track := false, src := [] }
+    ({ st with regs := setR st.regs r.toNat! Sk.defaultSk, sregs := setR st.sregs r.toNat! sr },
+     resp st Sk.defaultSk.obsp sr.obsp)
+  | ["conv", r1, r2, how] =>
+    -- Clone / From conversions there and back (two conversions, each re-deriving the ceiling from
+    -- scaled()) / serde round trip: the property expects the same sketch
+    match getR st.regs r2.toNat!, getR st.sregs r2.toNat! with
+    | some a, some sa =>
+      let a' := if how == "rt" || how == "rtr" then a.convert.convert else if how == "serde" then a.serdeRoundTrip else a
+      ({ st with regs := setR st.regs r1.toNat! a', sregs := setR st.sregs r1.toNat! sa }, resp st a'.obsp sa.obsp)
+    | _, _ => (st, { model := "bad-reg" })
+  | ["addm", r, hs] =>
+    let r := r.toNat!
+    match getR st.regs r, getR st.sregs r with
+    | some a, some sa =>
+      let hs := natList hs
+      let a' := a.addMany st.kind hs
+      let sa' := SReg.mark st.kind { sa with src := sa.src ++ hs.map (fun h => (h, 1)) }
+      ({ st with regs := setR st.regs r a', sregs := setR st.sregs r sa' }, resp st a'.obs sa'.obs)
+    | _, _ => (st, { model := "bad-reg" })
+  | ["pour", r1, r2, s, how] =>
+    -- an empty sketch at scaled `s` with the other parameters of R2, R2 poured in; the property: every
+    -- hash of R2 goes through the new sketch's own admission rule (ceiling of `s`, bottom-`num`)
+    match getR st.regs r2.toNat!, getR st.sregs r2.toNat! with
+    | some b, some sb =>
+      let n := Sk.new s.toNat! b.ksize b.mol b.seed b.track b.num
+      let b' := if how == "abund" then n.addManyAb st.kind b.pairs
+                else if how == "many" then n.addMany st.kind b.mins
+                else pourScaled st.kind b s.toNat!
+      let src := if how == "abund" && sb.track then sb.content else sb.keys.map (fun h => (h, 1))
+      let sb' := SReg.mark st.kind { sb with maxHash := Scaled.maxHashForScaled s.toNat!, src := src }
+      ({ st with regs := setR st.regs r1.toNat! b', sregs := setR st.sregs r1.toNat! sb' }, resp st b'.obs sb'.obs)
+    | _, _ => (st, { model := "bad-reg" })
   | ["copy", r1, r2] =>
     match getR st.regs r2.toNat!, getR st.sregs r2.toNat! with
     | some a, some sa => ({ st with regs := setR st.regs r1.toNat! a, sregs := setR st.sregs r1.toNat! sa }, { model := "ok" })
@@ -403,9 +459,9 @@ def operands (st : St) (ws : List String) : List Nat :=
   | "fpget" :: _ :: i :: _ => (i.toNat?.bind (st.sigRegs[·]?)).toList
   | op :: rest =>
     if op == "fpsel" || op == "fpselx" || op == "fpadd" then st.sigRegs
-    else if op == "copy" || op == "ds" || op == "dsm" then (rest.drop 1).take 1 |>.filterMap String.toNat?
-    else if ["obs", "scaled", "add", "set", "rm", "clear", "md5"].contains op then rest.take 1 |>.filterMap String.toNat?
-    else if op == "new" || op == "case" then []
+    else if op == "copy" || op == "ds" || op == "dsm" || op == "conv" || op == "pour" then (rest.drop 1).take 1 |>.filterMap String.toNat?
+    else if ["obs", "scaled", "add", "addm", "set", "rm", "clear", "md5"].contains op then rest.take 1 |>.filterMap String.toNat?
+    else if op == "new" || op == "case" || op == "build" || op == "newdef" then []
     else rest.take 2 |>.filterMap String.toNat?
   | [] => []
 
